@@ -553,13 +553,19 @@ def run(rng: Rng, tier: str, index: int) -> RunResult:
                 entry, tok, kname, note, snd = gen_jwe_input(w, g)
                 if snd is not None and g.chance(0.85):
                     sender = K.to_jose_fast(snd.public(), False)
+                    if g.chance(0.4):
+                        # the sender's keys come as a key set of mixed key types; the token (not the caller) names one by "skid"
+                        sender = "set"
+                        skid = g.pick(["sender", "rsa", "oct", "ed", "x", "nope", 7])
+                        tok = relabel(tok, "skid", skid, where="protected" if isinstance(tok, str) or g.chance(0.5) else "recipient")
+                        note += " + skid := %r against a sender key set" % (skid,)
         except Exception as e:
             res.probe("generator-skipped:" + type(e).__name__)
             continue
         kkind = g.pick(["key", "key", "set", "callable-set", "callable-key"])
         kname_used = kname if g.chance(0.8) else g.pick(["oct", "oct16", "rsa", "ec", "ed", "x"])
         rname = g.pick(["default", "all", "all", "nonstrict", "any"])
-        verdict = judge(entry, tok, w.keyarg(kkind, kname_used), regs[rname], sender)
+        verdict = judge(entry, tok, w.keyarg(kkind, kname_used), regs[rname], sender_arg(w.mat, sender))
         res.case(entry, json.dumps(tok, sort_keys=True, default=repr) if isinstance(tok, dict) else repr(tok), kkind, kname_used, rname)
         res.fired("input:" + note.split(":")[0].split(" ")[0].split(".")[0])
         tr.add(i, entry, note.split(":")[0], verdict[0] if verdict else "-", digest=False)
@@ -570,10 +576,18 @@ def run(rng: Rng, tier: str, index: int) -> RunResult:
             res.violation(ID, verdict[0], "%s [input: %s; key %s/%s; registry %s]" % (verdict[1], note[:120], kkind, kname_used, rname),
                           {"entry": entry, "input": tok if not isinstance(tok, bytes) else {"bytes": tok.hex()},
                            "keys": {n_: rk.to_jwk(k, True) for n_, k in w.mat.items()}, "keykind": kkind, "keyname": kname_used,
-                           "registry": rname, "sender": sender is not None})
+                           "registry": rname, "sender": "set" if sender == "set" else (sender is not None)})
     res.events = n
     res.digest = tr.digest()
     return res
+
+
+def sender_arg(mats, sender):
+    if sender != "set":
+        return sender
+    from joserfc.jwk import KeySet
+    return KeySet([K.to_jose_fast(mats[n] if mats[n].kty == "oct" else mats[n].public(), mats[n].kty == "oct", params={"kid": n})
+                   for n in ("sender", "rsa", "oct", "ed", "x")])
 
 
 def replay(repro: dict):
@@ -587,6 +601,6 @@ def replay(repro: dict):
     tok = repro["input"]
     if isinstance(tok, dict) and set(tok) == {"bytes"}:
         tok = bytes.fromhex(tok["bytes"])
-    sender = K.to_jose_fast(mats["sender"].public(), False) if repro.get("sender") else None
+    sender = sender_arg(mats, "set") if repro.get("sender") == "set" else (K.to_jose_fast(mats["sender"].public(), False) if repro.get("sender") else None)
     v = judge(repro["entry"], tok, w.keyarg(repro["keykind"], repro["keyname"]), registries()[repro["registry"]], sender)
     return [v] if v else []
